@@ -836,6 +836,58 @@ pub fn exec_line(sess: &mut Session, line: &str) -> String {
             }
             out.join(" ")
         }
+        "@catalog_hand_limit" => {
+            // `_Validation` (or `_Columns`) brought to within `room` rows of the limit by ordinary
+            // inserts of rows that describe no table; then a create_table that needs one row more
+            // (refused, nothing changed), one that fits exactly (accepted)
+            let which = toks[1];
+            let room: usize = toks[2].parse().unwrap();
+            let cols = |n: usize| -> Vec<msi::Column> {
+                (0..n).map(|i| {
+                    let name = format!("C{:02}", i + 1);
+                    if i == 0 { msi::Column::build(name).primary_key().int32() } else { msi::Column::build(name).nullable().int16() }
+                }).collect()
+            };
+            let count = |pkg: &mut crate::session::Pkg, t: &str| -> i64 {
+                match pkg.select_rows(msi::Select::table(t)) { Ok(r) => r.len() as i64, Err(_) => -1 }
+            };
+            let names = |pkg: &crate::session::Pkg| -> Vec<String> {
+                let mut v: Vec<String> = pkg.tables().map(|t| t.name().to_string()).collect();
+                v.sort();
+                v
+            };
+            let res = std::panic::catch_unwind(std::panic::AssertUnwindSafe(|| -> Vec<String> {
+                let mut out: Vec<String> = vec![];
+                let medium = crate::session::Medium::new(Vec::new());
+                let mut pkg = msi::Package::create(msi::PackageType::Installer, medium.clone()).unwrap();
+                let have = count(&mut pkg, which) as usize;
+                let fill = 65536 - have - room;
+                let rows: Vec<Vec<msi::Value>> = (0..fill).map(|i| {
+                    if which == "_Validation" {
+                        let mut r = vec![msi::Value::Str(format!("Ghost{}", i / 30)), msi::Value::Str(format!("C{}", i % 30)), msi::Value::Str("N".into())];
+                        r.extend((0..7).map(|_| msi::Value::Null));
+                        r
+                    } else {
+                        vec![msi::Value::Str(format!("Ghost{}", i / 30)), msi::Value::Int((i % 30) as i32 + 1), msi::Value::Str(format!("C{}", i % 30)), msi::Value::Int(9474)]
+                    }
+                }).collect();
+                out.push(format!("fill:{}", crate::session::res_unit(pkg.insert_rows(msi::Insert::into(which).rows(rows))).replace(' ', "_")));
+                let before = (names(&pkg), count(&mut pkg, "_Tables"), count(&mut pkg, "_Columns"), count(&mut pkg, "_Validation"));
+                let r = pkg.create_table("Extra", cols(room + 1));
+                out.push(format!("hand-over:{}", if r.is_ok() { "ok" } else { "err" }));
+                let after = (names(&pkg), count(&mut pkg, "_Tables"), count(&mut pkg, "_Columns"), count(&mut pkg, "_Validation"));
+                out.push(format!("hand-over-unchanged={}", before == after));
+                let r = pkg.create_table("Fits", cols(room));
+                out.push(format!("hand-exact:{}", if r.is_ok() { "ok" } else { "err" }));
+                out.push(format!("hand-exact-listed={}", pkg.has_table("Fits") && !pkg.has_table("Extra")));
+                out.push(format!("flush:{}", crate::session::res_unit(pkg.flush()).replace(' ', "_")));
+                out
+            }));
+            match res {
+                Ok(o) => o.join(" "),
+                Err(_) => "panic".to_string(),
+            }
+        }
         "@refcount_saturation" => {
             // `n` cells hold one text; then a table and a column of that very name are created
             // (their catalog rows refer to the same text): around n = 65,533 the 16-bit reference
